@@ -85,7 +85,19 @@ def run_with_dumps(unc_args, workdir, inp=None, timeout=60, binary=None):
     from . import common
     prefix = os.path.join(workdir, "d")
     for f in os.listdir(workdir):
-        if f.startswith("d.") and f.split(".")[-1] in ("tok", "fin", "out", "sp"):
+        if f.startswith("d.") and f.split(".")[-1] in ("tok", "fin", "out", "sp", "lops"):
             os.remove(os.path.join(workdir, f))
     rc, out, err = common.run_unc(unc_args, inp=inp, env_extra={"UNC_VERIF_DUMP": prefix}, timeout=timeout, binary=binary)
     return rc, out, err, prefix
+
+
+def parse_lops(path):
+    """records of the hook in Chunk::MoveAfter / Swap / SwapLines: (kind, a_null, b_null, same, a_head, b_head, b_before_a, a_before_b, newline bits, same_line)"""
+    out = []
+    if not os.path.exists(path):
+        return out
+    for ln in open(path, errors="replace"):
+        p = ln.split()
+        if len(p) == 10 and p[0] in ("M", "S", "L"):
+            out.append((p[0],) + tuple(int(v) for v in p[1:]))
+    return out
